@@ -175,6 +175,9 @@ def hostile_payloads() -> List[tuple]:
                   [{"processor": 'template:"{nan}/{inf}":label'}, {"processor": "FloatMultiplyOperation", "parameters": {"factor": float("inf")}}],
                   [{"processor": "FloatCollectValueProbe", "context_key": "a"}, {"processor": "VBoomOperation"}],       # reads the awkward values as parameters
                   [{"processor": "VHandleProbe", "context_key": "spool"}, {"processor": "VHandleProbe", "context_key": "spool"}]]     # a node CREATES, then REPLACES, a context value that cannot be described
+    # failures whose exception has NO argument / an empty message / non-text arguments: the traced run raises the very same thing
+    for kind in ("KeyError", "IndexError", "AssertionError", "StopIteration", "KeyErrorTuple", "OSError", "EmptyText", "UnicodeError"):
+        nodes_list.append([{"processor": "FloatCollectValueProbe", "context_key": "a"}, {"processor": "VRaise", "parameters": {"kind": kind}}])
     # sweeps over values that are not JSON types: what YAML itself yields for an unquoted date / timestamp / !!binary,
     # and what the Python API allows (tuples, complex numbers, sets)
     import datetime as _dt
@@ -206,7 +209,7 @@ def hostile_payloads() -> List[tuple]:
                     o["final"] = (a_data(res.data), {k: (repr(v) if isinstance(v, (int, float, str)) else type(v).__name__)   # repr: nan == nan here
                                                      for k, v in res.context.to_dict().items()})
                 except Exception as exc:
-                    o["raised"] = f"{type(exc).__name__}: {str(exc)[:160]}"
+                    o["raised"] = f"{type(exc).__name__}: {str(exc)[:160]} args={exc.args!r}"[:300]
                 return o
             import shutil as _sh
             import tempfile as _tf
@@ -248,6 +251,43 @@ for detail in ("hash", "repr", "context", "all"):
 import locale
 print("LOCALE-RESULT " + json.dumps({"encoding": locale.getpreferredencoding(False), "runs": out}))
 """
+
+
+def staged_metadata_check(run) -> None:
+    """HISTORY on one orchestrator: run metadata STAGED with configure_run_metadata() before a run that also brings its own
+    (Pipeline.set_run_metadata), then a traced run that brings none: its pipeline_start is that of a run without metadata."""
+    from semantiva.context_processors import ContextType
+    from semantiva.data_types import NoDataType
+    from semantiva.pipeline import Payload, Pipeline
+    from ..traced import make_driver, read_records
+    import shutil as _sh
+    import tempfile as _tf
+
+    nodes = [{"processor": "FloatValueDataSource", "parameters": {"value": 2.0}}, {"processor": "FloatMultiplyOperation", "parameters": {"factor": 3.0}}]
+
+    def third_start(with_history: bool):
+        tmp = _tf.mkdtemp(prefix="vstaged-")
+        try:
+            p = Pipeline([dict(n) for n in nodes], trace=make_driver(tmp + "/d", "hash"))
+            if with_history:
+                p.orchestrator.configure_run_metadata({"run_space_index": 7, "run_space_context": {"note": "staged"}})
+                p.set_run_metadata({"run_space_index": 1, "run_space_context": {"note": "explicit"}})
+                p.process(Payload(NoDataType(), ContextType({})))
+            else:
+                p.process(Payload(NoDataType(), ContextType({})))
+            p.process(Payload(NoDataType(), ContextType({})))
+            from pathlib import Path as _P
+            recs = [r for f in sorted(_P(tmp + "/d").rglob("*.jsonl"), key=lambda f: f.stat().st_mtime_ns) for r in read_records(f)]
+            starts = [r for r in recs if r["record_type"] == "pipeline_start"]
+            last = max(starts, key=lambda r: r.get("seq", 0))
+            return {k: v for k, v in last.items() if k.startswith("run_space")}
+        finally:
+            _sh.rmtree(tmp, ignore_errors=True)
+    run.evaluations += 2
+    plain, after = third_start(False), third_start(True)
+    if plain != after:
+        run.violation("reproducible:staged-run-metadata", f"a traced run without run metadata carries {after} in its pipeline_start after an earlier run on the same "
+                      f"orchestrator had metadata both staged (configure_run_metadata) and given explicitly; without that history it carries {plain}", {"staged": True})
 
 
 def locale_check(run) -> None:
@@ -422,6 +462,7 @@ def check(tier: str) -> int:
     tlc_checks(run, tier)
     seed = core.seed()
     locale_check(run)
+    staged_metadata_check(run)
     for key, what, rep in hostile_payloads():
         run.violation(key, what, rep)
     fresh_history_checks(run, tier)
